@@ -37,6 +37,7 @@ def run(ctx):
     R.rule("C26-R1", "operands of each layering `+` chain are ordered by non-decreasing specificity", floor=7)
     R.rule("C26-R2", "layered result has its `modes` subtrees removed before it is returned", floor=3)
     R.rule("C26-R4", "specificity is resolved per source: the properties handed to getModeSpecificProps / getObjectSpecificProps come from one source, sources are layered after resolution", floor=6)
+    R.rule("C26-R5", "the layering helpers keep no state between calls: no function-local static is computed from a parameter", floor=3)
     R.rule("C26-R3", "mode passed to the helpers is the device's own; the key after \"modes/\" is the mode", floor=8)
 
     def operand_rank(f, e):
@@ -162,6 +163,18 @@ def run(ctx):
                     a0 = strip(call_args(c)[0])
                     ok = is_call(a0) and callee(a0) == "occa::device::mode"
                     R.ob("C26-R3", ok, q, "forward:mode() to getModeSpecificProps", f.site(c), "per-call properties are specialised with the device's own mode")
+
+    # ---- R5: a static local is initialised once per process: anything computed from `mode` / `props` there belongs to the first device -------
+    for f in prog.funcs.values():
+        if f.d.get("tmpl") == "inst" or not f.d["file"].endswith("src/core/device.cpp"):
+            continue
+        pds = {p["d"] for p in f.d["params"]}
+        stat = [v for v in f.walk() if v["k"] == "VarDecl" and v.get("static")]
+        bad = [v for v in stat if any(x["k"] == "DeclRefExpr" and x.get("d") in pds for x in walk(v))]
+        if f.q in HELPERS or f.q == "occa::initialObjectProps" or stat:
+            R.ob("C26-R5", not bad, f.q, "no static local computed from a parameter (%d static local(s))" % len(stat), f.site(bad[0]) if bad else "%s:%d" % (f.relfile, f.d["line"]),
+                 "every call layers the properties for the mode it is given" if not bad else
+                 "`static %s` is initialised from a parameter: it keeps the value of the first call in the process, so a device of another mode is layered with the first device's mode-specific entries" % bad[0]["n"])
 
 
 META = {
